@@ -47,8 +47,9 @@ def main(argv=None):
             summary = [{'mutant': m.name, 'expects_rule': m.expect, 'status': st, 'info': info, 'what': m.desc}
                        for m, st, info in res]
             chk.extra['selftest'] = {
-                'explanation': 'AST-located mutants of the current tree (one rule instance broken each) applied to '
-                               'scratch copies; the check must report the named rule',
+                'explanation': 'AST-located mutants of the current tree (one rule instance broken each) and the seeded '
+                               'changes of /verif/seeded that this check reports (located by the text of their hunks), '
+                               'applied to scratch copies; the check must report the named rule',
                 'mutants': len(ms), 'killed': sum(1 for _, st, _ in res if st == 'killed'),
                 'skipped': sum(1 for _, st, _ in res if st == 'skipped'), 'results': summary}
             bad = [x for x in summary if x['status'] in ('survived', 'analysis-error')]
